@@ -7,9 +7,10 @@
 #
 # @author Davide Brunato <brunato@sissa.it>
 #
+import re
 from decimal import Decimal
 from math import isinf, isnan
-from typing import Optional, SupportsInt, SupportsFloat, TYPE_CHECKING, Union
+from typing import cast, Optional, SupportsInt, SupportsFloat, TYPE_CHECKING, Union
 from xml.etree.ElementTree import Element
 from elementpath import datatypes
 
@@ -23,6 +24,10 @@ if TYPE_CHECKING:
     from xmlschema.validators import XsdAnnotation, XsdComponent  # noqa: F401
 
 XSD_FINAL_ATTRIBUTE_VALUES = {'restriction', 'extension', 'list', 'union'}
+# Lexical spaces of xs:decimal and xs:integer (ASCII digits only, after whitespace collapse)
+DECIMAL_LEXICAL_PATTERN = re.compile(r'[+-]?(?:[0-9]+(?:\.[0-9]*)?|\.[0-9]+)')
+INTEGER_LEXICAL_PATTERN = re.compile(r'[+-]?[0-9]+')
+
 XSD_BOOLEAN_MAP = {
     'false': False, '0': False,
     'true': True, '1': True
@@ -264,6 +269,18 @@ def error_type_validator(value: object) -> None:
 
 #
 # XSD builtin decoding functions
+
+def decimal_to_python(value: Union[str, int, float, Decimal]) -> Decimal:
+    if isinstance(value, str) and DECIMAL_LEXICAL_PATTERN.fullmatch(value) is None:
+        raise XMLSchemaValueError(f"invalid value {value!r} for xs:decimal")
+    return cast(Decimal, datatypes.DecimalProxy(value))
+
+
+def int_to_python(value: Union[str, int]) -> int:
+    if isinstance(value, str) and INTEGER_LEXICAL_PATTERN.fullmatch(value) is None:
+        raise XMLSchemaValueError(f"invalid literal for int() with base 10: {value!r}")
+    return int(value)
+
 
 def boolean_to_python(value: str) -> bool:
     try:
